@@ -22,7 +22,8 @@ THEOREMS = ["C01_sem_binop_left_error", "C01_sem_binop_right_error", "C01_sem_bi
             "C01_user_call_compiled", "C01_definition_compiled_and_run", "C01_definition_extends_the_table",
             "C01_sem_definition", "C01_sessions_with_definitions_partial", "C01_sem_counter_monotone",
             "C01_sessions_sem_vs_vm_partial", "C01_meaning_is_stable_in_fuel", "C01_meaning_is_unique",
-            "C01_checked_machine_meets_the_premise", "C01_counted_trees_are_covered"]
+            "C01_checked_machine_meets_the_premise", "C01_counted_trees_are_covered",
+            "C01_counted_trees_are_covered_sem_vs_vm"]
 
 CORPUS = [
     # witnesses of defects repaired in /repo (they stay in the corpus)
@@ -84,12 +85,14 @@ def run(tier, seed):
             total = sum(c % 100000 for c in cov.values())
             frag["trees"] = total
             frag["trees_inside_proven_fragment"] = inside
-            frag["trees_covered_by_the_session_theorem"] = sum(c // 10**10 for c in cov.values())
+            frag["trees_covered_by_the_session_theorem"] = sum((c // 10**10) % 10**5 for c in cov.values())
+            frag["trees_covered_by_the_sem_vs_vm_session_theorem"] = sum(c // 10**15 for c in cov.values())
     gterms = [sessions.session_case_term(r) for r in res]
     gcov = vlib.coq_eval_codes("C01gfrag", sesscheck.IMPORTS + ["StmtSem", "CorrFragment"], gterms, "chk_fragment", shard=40)
     frag["general_trees"] = sum(c % 100000 for c in gcov.values())
     frag["general_trees_inside_proven_fragment"] = sum((c // 100000) % 100000 for c in gcov.values())
-    frag["general_trees_covered_by_the_session_theorem"] = sum(c // 10**10 for c in gcov.values())
+    frag["general_trees_covered_by_the_session_theorem"] = sum((c // 10**10) % 10**5 for c in gcov.values())
+    frag["general_trees_covered_by_the_sem_vs_vm_session_theorem"] = sum(c // 10**15 for c in gcov.values())
     stats["proven_fragment"] = frag
     run.cov.update({
         "explanation": "The property itself (compiler+VM agree with the language semantics on every program) is NOT proved; "
@@ -106,14 +109,16 @@ def run(tier, seed):
                        "(C01_sessions_with_definitions_partial) in the sense of C01_counted_trees_are_covered: the machine their session "
                        "reaches after its first tree passes the sound check of the machine premise (start_ok; the first run also executes "
                        "the definitions of the built-ins and is not covered), and they lie in the prefix of the remaining trees all of "
-                       "which meet the premises on trees (which include those of the Sem-vs-VM theorem C01_sessions_sem_vs_vm_partial, "
-                       "whose premises on the Sem state and on the relation of the two worlds are discharged for the start of a session "
-                       "only, not per generated session)." %
+                       "which meet the premises on trees; %d and %d are covered in the same sense by the Sem-vs-VM session theorem "
+                       "(C01_sessions_sem_vs_vm_partial, C01_counted_trees_are_covered_sem_vs_vm: the Sem state and the machine after the "
+                       "first tree also pass the sound checks of that theorem's premises on the two states, start_ok2)." %
                        (len(THEOREMS), stats["sessions"], stats["statements"], frag["sessions"],
                         frag.get("trees_inside_proven_fragment", 0), frag.get("trees", 0),
                         frag["general_trees_inside_proven_fragment"], frag["general_trees"],
                         frag.get("trees_covered_by_the_session_theorem", 0),
-                        frag["general_trees_covered_by_the_session_theorem"]),
+                        frag["general_trees_covered_by_the_session_theorem"],
+                        frag.get("trees_covered_by_the_sem_vs_vm_session_theorem", 0),
+                        frag["general_trees_covered_by_the_sem_vs_vm_session_theorem"]),
         "evaluations": stats["statements"],
         "distinct_nontrivial": sesscheck.distinct_nontrivial(sess, res),
         "rule": "sessions of 3-10 top-level statements from a grammar-directed, scope-tracking, terminating generator "
